@@ -4,6 +4,7 @@ CONSTANTS
   Threads <- TThreads
   Files <- TFiles
   FileOf <- TFileOf
+  StripSlash <- TStrip
   Payloads = {}
   Limit <- TLimit
   TimeLimit <- TTimeLimit
